@@ -30,15 +30,22 @@ def _renderer_setting(i18n: I18n, emitter: RendererEmitter) -> RendererSetting:
 
 
 def _app() -> App:
+	return make_app(None, ['__main__'])
+
+
+def make_app(program: dict | None, module_names: list) -> App:
+	"""program: {module path: source} for modules that exist only in memory (None = the single module __main__ from _SRC)"""
 	holder: dict = {}
 
 	def sp(module_path: str) -> str:
-		if module_path == '__main__':
+		if program is not None and module_path in program:
+			return program[module_path]
+		if program is None and module_path == '__main__':
 			return _SRC['code']
 		return holder['app'].resolve(Invoker)(source_provider)(module_path)
 
 	app = App({
-		to_fullyname(ModulePaths): lambda: ModulePaths([ModulePath('__main__', language='py')]),
+		to_fullyname(ModulePaths): lambda: ModulePaths([ModulePath(name, language='py') for name in module_names]),
 		to_fullyname(SourceProvider): lambda: sp,
 		to_fullyname(ITranspiler): Py2Cpp,
 		to_fullyname(Renderer): Renderer,
